@@ -440,6 +440,7 @@ func ExecReader(data any, selector string) (any, error) {
 		parsed = allSelectors
 	}
 	mut.Unlock()
+	verifPoint("selector.cache")
 	result := data
 	for _, item := range parsed {
 		rs, err := ReaderExecutor(result, item)
